@@ -147,6 +147,23 @@ def r3d_hit(ctx):
                                               for d in f.whole_defs(op_local(a)) if op_local(a) is not None)
                                           for a in t[1]["args"]):
                     use_bbs.add(b2)
+        # payload reads inside closures (e.g. `.map(|c| Arc::clone(&c.value().1))`): used at the call that runs the closure
+        vty = db.maps[m][1]
+        for bb2, c2 in f.calls():
+            for cid, loc in c2.get("clos", []):
+                cf = ctx.bin.fns.get(cid)
+                if cf is None or cf.root != f.id:
+                    continue
+                for b3 in cf.blocks:
+                    for st in b3["s"]:
+                        if st[0] != "=" or st[2][0] not in ("ref", "use"):
+                            continue
+                        pp = st[2][2] if st[2][0] == "ref" else op_place(st[2][1])
+                        if pp is None:
+                            continue
+                        for e in place_projs(pp):
+                            if isinstance(e, list) and e[0] == "f" and e[3] == "tuple" and e[1] >= k and "Arc" in e[4] and e[4] in vty:
+                                use_bbs.add(bb2)
         if not use_bbs:
             r.violate(key0 + "|payload-use", "cannot find where the cached payload of `%s` is used in %s" % (m, fid))
             continue
@@ -331,6 +348,22 @@ def r3d_memo_context(ctx):
             r.violate(key, "%s memoises its result in `%s` but the result depends on context parameter(s) %s" % (fid, m, sorted(set(bad))))
         else:
             r.ok()
+        # functions computing the memoised result (same call-graph SCC) that consult a forwarded context set
+        for comp in db.cg.sccs():
+            if fid not in comp:
+                continue
+            for gid in comp:
+                if gid == fid:
+                    continue
+                g = ctx.bin.fns[gid]
+                for i in [i for i in range(1, g.argc + 1) if g.local_ty(i).startswith("&mut ")]:
+                    reads = sorted({(c.get("res") or "").split("::")[-1] for bb, c in g.calls()
+                                    if c["args"] and _derives(g, c["args"][0], i) and re.search(r"::(contains|get|len|is_empty|iter)\b", c.get("res") or "")})
+                    key2 = "R3d-iii|%s|%s" % (m, gid)
+                    if reads:
+                        r.violate(key2, "%s (computing the result memoised in `%s`) consults context parameter `%s` (%s)" % (gid, m, g.local_name(i), reads))
+                    else:
+                        r.ok()
     r.floor("cache fill functions", len(fills), 5)
     return r
 
@@ -476,3 +509,54 @@ def r3d_membership_gate(ctx):
                                "changes the answer" % (m, f.id, ctx.bin.span_str(op.call["span"])))
     r.floor("membership tests on evictable maps in query functions", n, 2)
     return r
+
+
+def r3d_stamp_origin(ctx):
+    r = Result("R3d-stamp", "a cache stamp that is not the definitions version is a hash of the whole content: the value stored (and "
+                            "compared) is computed by a function that feeds the content to a Hasher and returns finish()")
+    db = _db(ctx)
+    caches = stamped_caches(db)
+    fills = fill_functions(db)
+    from .r3 import _slice_calls
+    n = 0
+    for m, k in sorted(caches.items()):
+        fid = fills.get(m)
+        if fid is None:
+            continue
+        f = ctx.bin.fns[fid]
+        ins = [op for op in db.ops_by_map[m] if op.method == "insert" and op.fn.id == fid]
+        stored = None
+        for op in ins:
+            vl = op_local(op.call["args"][2]) if len(op.call["args"]) > 2 else None
+            for d in f.whole_defs(vl) if vl is not None else []:
+                if d[0] == "assign" and d[3][0] == "agg" and d[3][1][0] == "tuple":
+                    stored = d[3][2]
+        if stored is None:
+            continue
+        for i in range(k):
+            calls = _slice_calls(ctx.bin, f, stored[i])
+            if any(re.search(r"atomic::.*::load$", x) for x in calls):
+                continue  # version stamp
+            n += 1
+            key = "R3d-stamp|%s|stamp%d" % (m, i)
+            # the stamp must come from a local function whose body hashes its argument and returns finish()
+            hashers = [x for x in calls if x in ctx.bin.fns and _is_content_hash(ctx.bin.fns[x])]
+            others = [x for x in calls if x in ctx.bin.fns and not _is_content_hash(ctx.bin.fns[x])]
+            if hashers and not others:
+                r.ok(sample={"cache": m, "stamp": i, "hash_fn": hashers[0].split("::")[-1]})
+            else:
+                r.violate(key, "stamp #%d of `%s` is computed by %s, not by a hash of the whole content: different contents can share a stamp" % (
+                    i, m, sorted(x.split("::")[-1] for x in (others or calls))[:3]))
+    r.floor("content stamps", n, 3)
+    return r
+
+
+def _is_content_hash(g):
+    """g feeds a str/String parameter to a Hasher and returns finish()"""
+    feeds = fin = False
+    for _b, c in g.calls():
+        if c.get("fn") == "std::hash::Hash::hash" and any(t in ("str", "std::string::String") for t in c.get("targs", [])[:1]):
+            feeds = True
+        if c.get("fn") == "std::hash::Hasher::finish" and place_local(c["dest"]) == 0:
+            fin = True
+    return feeds and fin
